@@ -129,7 +129,7 @@ func body() {
 	if r.Thorough() {
 		maxDepth = 3
 	}
-	n := r.Pick(24, 400)
+	n := r.Pick(24, 32)
 	if v := os.Getenv("C01_N"); v != "" {
 		fmt.Sscan(v, &n)
 	}
